@@ -18,6 +18,7 @@ type gen struct {
 	tag     string
 	n       int
 	kfCross bool
+	prevCallID string
 	tagPool []string // user agents that use the same tag for every call (a tag is unique only within a Call-ID)
 }
 
